@@ -488,7 +488,7 @@ spec fn same_record(a: Record, b: Record) -> bool { a.typ == b.typ && (a.cont is
 //@@ before /\} else \{/
                 proof {
                     let f2 = frags(*r);
-                    //# C12.dbcs_continue_flag_byte
+                    //# C12,C19.dbcs_continue_flag_byte
                     // the continuation's first byte is the flag byte: exactly one byte is consumed before the characters resume
                     assert(f2 =~= adv(next_frag(f1), 1));
                     assert(high_byte == (f1[1][0] & 1 != 0));
